@@ -102,7 +102,11 @@ def run(rep, tier, driver):
                     variant = gen.render(t, "full")
                     l["anomer"] = old
         elif kind == "fragment":
-            variant = "{%s(a1-?)}%s" % (rng.choice(cv.common), base)
+            # one or more residues floating, with or without a '?' on the fragment's own outgoing linkage, one or two fragments
+            a, b, c = rng.choice(cv.common), rng.choice(["Gal", "Glc", "Man", "GlcNAc"]), rng.choice(["Fuc", "Neu5Ac", "Gal"])
+            variant = rng.choice(["{%s(a1-?)}%s" % (a, base), "{%s(a1-3)%s(b1-?)}%s" % (a, b, base), "{%s(a1-3)%s(b1-4)}%s" % (a, b, base),
+                                  "{%s(a1-2)[%s(a1-3)]%s(b1-?)}%s" % (c, a, b, base), "{%s(a1-?)}{%s(a1-3)%s(b1-?)}%s" % (c, a, b, base),
+                                  "{%s(a1-3)%s(b1-4)}{%s(a1-4)%s(b1-3)}%s" % (a, b, c, b, base)])
         if variant is not None and injected is not None:
             relex.append((i, base, variant, injected))
         for full in (True, False):
